@@ -53,7 +53,11 @@ def normalize(p):
     """Fill in object tables from the instructions. Returns a new dict."""
     q = {"threads": [[{**DEFAULT, **i} for i in th] for th in p["threads"]]}
     sets = {k: set(p.get(k, [])) for k in ("atoms", "cells", "mtxs", "rws", "cvs", "ntfs", "chans", "trks")}
-    arcs = dict(p.get("arcs", {}))  # arc name -> {"h0": [handles], "cell": "c" or ""}
+    if isinstance(p.get("arcs"), list):     # already normalized: rebuild the declaration
+        arcs = {a: {"h0": [h for h in p.get("h0", []) if p["hmap"][h] == a], "cell": p.get("acell", {}).get(a, "")}
+                for a in p["arcs"]}
+    else:
+        arcs = dict(p.get("arcs", {}))  # arc name -> {"h0": [handles], "cell": "c" or ""}
     hmap = {}
     for a, d in arcs.items():
         for h in d.get("h0", []):
